@@ -10,10 +10,10 @@ import nf
 from an import P, F, L, BITS, K, add, sub, mul, c, cmp, canon, gset, gshow, opt_kind, short
 from terms import show
 
-FROM_BITSLICE = re.compile(r"^<S as kmer::sealed::KmerStorage>::from_bitslice$|^kmer::integral64::<impl kmer::sealed::KmerStorage for (usize|u64|u128)>::from_bitslice$|^<usize as kmer::sealed::KmerStorage>::from_bitslice$")
+FROM_BITSLICE = re.compile(r"^<S as kmer::sealed::KmerStorage>::from_bitslice$|^<(usize|u64|u128) as kmer::sealed::KmerStorage>::from_bitslice$|^<usize as kmer::sealed::KmerStorage>::from_bitslice$")
 
 
-UNSAFE_FROM = re.compile(r"^kmer::Kmer::<A, K(, S)?>::unsafe_from_seqslice$")
+UNSAFE_FROM = re.compile(r"^kmer::Kmer::<A, K(, \w+)?>::unsafe_from_seqslice$")
 
 
 def is_pack(t):
@@ -176,7 +176,7 @@ def run(ctx, chk):
                 evs = [x for x in r[0].calls if x[3].idx in ids]
                 got = "%s then %s" % (show(nb), [(short(x[0]), [show(a) for a in x[1][1:]]) for x in evs])
                 ok = an.is_call(nb, "seq::Seq::<A>::with_capacity") and len(evs) == 1 and evs[0][0].startswith("seq::Seq::<A>::extend") and \
-                    an.is_call(evs[0][1][1], re.compile(r"^seq::iterators::<impl seq::slice::SeqSlice<A>>::iter$|into_iter$"), (("seqview", P(1)),))
+                    an.is_call(evs[0][1][1], re.compile(r"^seq::slice::SeqSlice::<A>::iter$|into_iter$"), (("seqview", P(1)),))
             chk.ob("S-conv", "From<Kmer> for Seq", ok, "must collect the k-mer's symbols in order (with_capacity; extend(kmer.iter())): " + got, b["span"])
             rows += 1
     chk.floor("k-mer rows over all configurations", rows, 6 * len(chk.configs))
